@@ -19,7 +19,6 @@ import (
 
 	"codeberg.org/TauCeti/mangle-go/analysis"
 	"codeberg.org/TauCeti/mangle-go/ast"
-	"codeberg.org/TauCeti/mangle-go/builtin"
 	"codeberg.org/TauCeti/mangle-go/factstore"
 	"codeberg.org/TauCeti/mangle-go/functional"
 	"codeberg.org/TauCeti/mangle-go/parse"
@@ -139,62 +138,34 @@ func (e naiveEngine) oneStepEvalClause(clause ast.Clause) []ast.Atom {
 
 	var facts []ast.Atom
 	for _, sol := range solutions {
-		facts = append(facts, clause.Head.ApplySubst(sol).(ast.Atom))
+		// Evaluates function expressions in the head.
+		head, err := functional.EvalAtom(clause.Head, sol)
+		if err != nil {
+			continue
+		}
+		facts = append(facts, head)
 	}
 	return facts
 }
 
-// Evaluates a single premise atom by scanning facts.
+// Evaluates a single premise by scanning facts. The meaning of each kind of
+// premise is shared with the semi-naive engine. Errors during evaluation of a
+// premise are treated as "no solution".
 func (e naiveEngine) oneStepEvalPremise(premise ast.Term, subst unionfind.UnionFind) []unionfind.UnionFind {
 	var solutions []unionfind.UnionFind
+	var err error
 	switch p := premise.(type) {
 	case ast.Atom:
-		p, err := functional.EvalAtom(p, subst)
-		if err != nil {
-			return nil
-		}
-		if p.Predicate.IsBuiltin() {
-			res, nsubsts, err := builtin.Decide(p, &subst)
-			if err != nil {
-				// Treat errors in built-in predicate evaluation as false.
-				return nil
-			}
-			if !res {
-				return nil
-			}
-			for _, nsubst := range nsubsts {
-				solutions = append(solutions, *nsubst)
-			}
-			return solutions
-		}
-		// Not a built-in predicate.
-		e.store.GetFacts(p, func(fact ast.Atom) error {
-			// TODO: This could be made a lot more efficient by using a persistent
-			// data structure for composing the unionfind substitutions.
-			if newsubst, err := unionfind.UnifyTermsExtend(p.Args, fact.Args, subst); err == nil {
-				solutions = append(solutions, newsubst)
-			}
-			return nil
-		})
+		solutions, err = premiseAtom(p, e.store.GetFacts, subst)
 	case ast.NegAtom:
-		a, err := functional.EvalAtom(p.Atom, subst)
-		if err != nil {
-			return nil
-		}
-		e.store.GetFacts(a, func(fact ast.Atom) error {
-			if _, err := unionfind.UnifyTermsExtend(p.Atom.Args, fact.Args, subst); err != nil {
-				solutions = append(solutions, subst)
-			}
-			return nil
-		})
+		solutions, err = premiseNegAtom(p.Atom, e.store, subst)
 	case ast.Eq:
-		if newsubst, err := unionfind.UnifyTermsExtend([]ast.BaseTerm{p.Left}, []ast.BaseTerm{p.Right}, subst); err == nil {
-			solutions = append(solutions, newsubst)
-		}
+		solutions, err = premiseEq(p.Left, p.Right, subst)
 	case ast.Ineq:
-		if _, err := unionfind.UnifyTermsExtend([]ast.BaseTerm{p.Left}, []ast.BaseTerm{p.Right}, subst); err != nil {
-			solutions = append(solutions, subst)
-		}
+		solutions, err = premiseIneq(p.Left, p.Right, subst)
+	}
+	if err != nil {
+		return nil
 	}
 	return solutions
 }
